@@ -2,6 +2,7 @@ package props
 
 import (
 	"fmt"
+	"go/token"
 	"go/types"
 	"os"
 	"sort"
@@ -95,6 +96,35 @@ func runC19(r *Run) {
 				{docStores, "versionId", "$1.VersionID", `cmp($1.VersionID != "")`},
 				{docStores, "updated", fmt.Sprintf(timeFmt, "UpdatedTime"), "cmp($1.UpdatedTime > 0)"},
 			}
+			allowedGuards := map[string][]string{
+				"recoveryCommitment": {".RecoveryCommitment"}, "updateCommitment": {".UpdateCommitment"}, "anchorOrigin": {".AnchorOrigin"},
+				"unpublishedOperations": {".UnpublishedOperations", ".includeUnpublishedOperations"}, "publishedOperations": {".PublishedOperations", ".includePublishedOperations"},
+				"deactivated": {".Deactivated"}, "canonicalId": {`"canonicalId"`}, "equivalentId": {`"equivalentId"`}, "created": {`"published"`},
+				"versionId": {".VersionID"}, "updated": {".VersionID", ".UpdatedTime"},
+			}
+			var stateTokens []string
+			for _, prm := range f.Params {
+				stateTokens = append(stateTokens, "$"+prm.Name()+".", "$"+prm.Name()+"[")
+			}
+			commonFacts := map[string]bool{}
+			first := true
+			for _, ss := range [][]mapStore{methodStores, docStores} {
+				for _, s := range ss {
+					cur := map[string]bool{}
+					for _, fc := range s.Facts {
+						cur[fc.Key()] = true
+					}
+					if first {
+						commonFacts, first = cur, false
+						continue
+					}
+					for k := range commonFacts {
+						if !cur[k] {
+							delete(commonFacts, k)
+						}
+					}
+				}
+			}
 			okFmt, nFmt := true, 0
 			for _, c := range cells {
 				var stores []mapStore
@@ -146,6 +176,26 @@ func runC19(r *Run) {
 						det += " — additional conditions on the value: " + strings.Join(extra, ", ")
 					}
 				}
+				// no condition on another part of the model, the transformation info or the transformer's options: a member
+				// is present whenever its own source says so (facts common to all member stores are the function's preconditions)
+				if ok {
+					var foreign []string
+					for _, fc := range st.Facts {
+						if fc.Kind != "cmp" && fc.Kind != "true" && fc.Kind != "false" && fc.Kind != "hit" && fc.Kind != "miss" {
+							continue
+						}
+						k := fc.Key()
+						if commonFacts[k] || !mentionsAny(k, stateTokens) || mentionsAny(k, allowedGuards[c.key]) {
+							continue
+						}
+						foreign = append(foreign, k)
+					}
+					if len(foreign) > 0 {
+						sort.Strings(foreign)
+						ok = false
+						det += " — stored only under conditions on other state: " + strings.Join(foreign, ", ")
+					}
+				}
 				r.R.Check(ok, id, rule, core.FuncName(f), st.Pos, why, det, "stored value "+det)
 			}
 			r.R.Check(okFmt && nFmt == 2, P+".meta.prov.rfc3339", "constant: created/updated are formatted with the layout time.RFC3339", core.FuncName(f), r.where(f), "-", "RFC3339", "another layout")
@@ -180,6 +230,171 @@ func runC19(r *Run) {
 		}
 		r.R.Check(len(bad) == 0, id, "E5 row AnchoredOperation→"+l.typ+": every field copied from the like-named field of the same operation", core.FuncName(f), r.P.Pos(al.Pos()),
 			"an operation list entry with a missing or crossed field misreports the history", fmt.Sprintf("%d fields copied", st.NumFields()), strings.Join(bad, "; "))
+		// an operation may be left out of a list only as a duplicate of a listed one: every map consulted or updated while
+		// the list is built is keyed by the operation's canonical reference (all operations of a DID share suffix and,
+		// within one anchor, time/number — only the reference tells anchored operations apart)
+		{
+			ff := r.E.Facts(f, core.Ctx{})
+			var keys, badKeys []string
+			for _, b := range f.Blocks {
+				for _, in := range b.Instrs {
+					var k ssa.Value
+					switch x := in.(type) {
+					case *ssa.Lookup:
+						if _, isMap := x.X.Type().Underlying().(*types.Map); isMap {
+							k = x.Index
+						}
+					case *ssa.MapUpdate:
+						k = x.Key
+					}
+					if k == nil {
+						continue
+					}
+					t := ff.TB.Of(k)
+					keys = append(keys, t.String())
+					if !core.MatchTerm("$0[_].CanonicalReference", t, core.Bind{}) {
+						badKeys = append(badKeys, t.String()+" at "+r.P.Pos(in.Pos()))
+					}
+				}
+			}
+			r.R.Check(len(badKeys) == 0, id+".dedupe.key", "E5: a set used to drop duplicates from the "+l.typ+" list is keyed by the operation's canonical reference", core.FuncName(f), r.where(f),
+				"keyed by anything the operations of one DID share (suffix, type, time) the list loses genuine operations", fmt.Sprintf("%d map accesses, all keyed by CanonicalReference", len(keys)), strings.Join(badKeys, "; "))
+		}
+	}
+
+	// ---------------- transformation info of a published document: canonical id from the model's canonical reference,
+	// one equivalent id per equivalent reference of the model (each built from that reference), id and published flag
+	if f := r.fn(P, pkgDocHandler, "GetTransformationInfoForPublished"); f != nil && len(f.Params) == 4 {
+		ff := r.E.Facts(f, core.Ctx{})
+		ns, idp, sfx, rmp := "$"+f.Params[0].Name(), "$"+f.Params[1].Name(), "$"+f.Params[2].Name(), "$"+f.Params[3].Name()
+		var leaves func(v ssa.Value, seen map[ssa.Value]bool, out map[string]bool)
+		leaves = func(v ssa.Value, seen map[ssa.Value]bool, out map[string]bool) {
+			if seen[v] {
+				return
+			}
+			seen[v] = true
+			switch x := v.(type) {
+			case *ssa.BinOp:
+				if x.Op == token.ADD {
+					leaves(x.X, seen, out)
+					leaves(x.Y, seen, out)
+					return
+				}
+			case *ssa.Phi:
+				for _, e := range x.Edges {
+					leaves(e, seen, out)
+				}
+				return
+			case *ssa.MakeInterface:
+				leaves(x.X, seen, out)
+				return
+			case *ssa.Call:
+				// fmt.Sprintf / strings.Join and the like: the pieces are the arguments
+				for _, a := range x.Call.Args {
+					leaves(a, seen, out)
+				}
+			case *ssa.Slice:
+				if al, ok := x.X.(*ssa.Alloc); ok {
+					for _, ref := range *al.Referrers() {
+						if ia, ok := ref.(*ssa.IndexAddr); ok {
+							for _, r2 := range *ia.Referrers() {
+								if st, ok := r2.(*ssa.Store); ok {
+									leaves(st.Val, seen, out)
+								}
+							}
+						}
+					}
+					return
+				}
+			}
+			out[ff.TB.Of(v).String()] = true
+		}
+		has := func(m map[string]bool, sub string) bool {
+			for k := range m {
+				if strings.Contains(k, sub) {
+					return true
+				}
+			}
+			return false
+		}
+		isTI := func(m ssa.Value) bool { return strings.Contains(m.Type().String(), "TransformationInfo") }
+		ms := r.mapStores(f, isTI)
+		okTI, det := true, ""
+		one := func(k string) ssa.Value {
+			if len(ms[k]) != 1 {
+				okTI = false
+				det += fmt.Sprintf("%d stores under %q; ", len(ms[k]), k)
+				return nil
+			}
+			return stripIface(ms[k][0].Value)
+		}
+		if v := one("id"); v != nil && ff.TB.Of(v).String() != idp {
+			okTI = false
+			det += "id = " + ff.TB.Of(v).String() + "; "
+		}
+		if v := one("published"); v != nil && ff.TB.Of(v).String() != "true" {
+			okTI = false
+			det += "published = " + ff.TB.Of(v).String() + "; "
+		}
+		if v := one("canonicalId"); v != nil {
+			lv := map[string]bool{}
+			leaves(v, map[ssa.Value]bool{}, lv)
+			if !(has(lv, ns) && has(lv, sfx) && has(lv, rmp+".CanonicalReference")) || has(lv, idp) || has(lv, ".EquivalentReferences") {
+				okTI = false
+				det += fmt.Sprintf("canonical id built from %v; ", keysOf(lv))
+			}
+		}
+		one("equivalentId")
+		nEq := 0
+		for _, b := range f.Blocks {
+			for _, in := range b.Instrs {
+				// a complete string built in this function: a concatenation or a call returning string that is not
+				// itself a piece of a longer concatenation (so append, indexed store and Sprintf/Join forms all count)
+				v, ok := in.(ssa.Value)
+				if !ok {
+					continue
+				}
+				if bt, isB := v.Type().Underlying().(*types.Basic); !isB || bt.Kind() != types.String {
+					continue
+				}
+				switch x := v.(type) {
+				case *ssa.BinOp:
+					if x.Op != token.ADD {
+						continue
+					}
+				case *ssa.Call:
+				default:
+					continue
+				}
+				piece := false
+				if refs := v.Referrers(); refs != nil {
+					for _, ref := range *refs {
+						if bo, ok := ref.(*ssa.BinOp); ok && bo.Op == token.ADD {
+							piece = true
+						}
+					}
+				}
+				if piece {
+					continue
+				}
+				lv := map[string]bool{}
+				leaves(v, map[ssa.Value]bool{}, lv)
+				if !has(lv, rmp+".EquivalentReferences[") {
+					continue
+				}
+				nEq++
+				if !(has(lv, ns) && has(lv, sfx)) || has(lv, ".CanonicalReference") || has(lv, idp) {
+					okTI = false
+					det += fmt.Sprintf("equivalent id at %s built from %v; ", r.P.Pos(in.Pos()), keysOf(lv))
+				}
+			}
+		}
+		if nEq == 0 {
+			okTI = false
+			det += "no equivalent id is built from an element of the model's equivalent references; "
+		}
+		r.R.Check(okTI, P+".ti.published", "E5 provenance: transformation info of a published document — id = the requested id, published = true, canonical id = namespace[:canonical reference]:suffix, one equivalent id namespace:reference:suffix per equivalent reference of the model", core.FuncName(f), r.where(f),
+			"canonical and equivalent ids built from another reference (or the same one repeatedly) misreport where the DID is anchored", fmt.Sprintf("id, published, canonical id and %d equivalent-id construction(s) traced to their sources", nEq), det)
 	}
 
 	// ---------------- did transformer
@@ -489,6 +704,118 @@ func runC19(r *Run) {
 			}
 		}
 	}
+	// ... and appended when new: from the hit edge of the context lookup, no path completes the iteration (returns
+	// to the lookup or to a success return) without passing the append of the looked-up context, except across an
+	// edge whose test mentions that context (the "already listed" test, whatever its form)
+	{
+		var hit *ssa.BasicBlock
+		var ctxVal ssa.Value
+		for _, b := range pk.Blocks {
+			for _, in := range b.Instrs {
+				if lk, ok := in.(*ssa.Lookup); ok && lk.CommaOk && strings.Contains(kf.TB.Of(lk.X).String(), "keyCtx") {
+					for _, ref := range *lk.Referrers() {
+						if ex, ok := ref.(*ssa.Extract); ok && ex.Index == 0 {
+							ctxVal = ex
+						}
+					}
+					for _, s2 := range b.Succs {
+						isMiss := false
+						for _, fc := range kf.EdgeFacts(b, s2) {
+							if fc.Kind == "miss" {
+								isMiss = true
+							}
+						}
+						if !isMiss && len(b.Succs) == 2 {
+							hit = s2
+						}
+					}
+				}
+			}
+		}
+		okApp, detApp := false, "context lookup or its hit edge not found"
+		if hit != nil && ctxVal != nil {
+			ctxTerm := kf.TB.Of(ctxVal).String()
+			lookupBlock := ctxVal.(*ssa.Extract).Block()
+			appendBlocks := map[*ssa.BasicBlock]bool{}
+			for _, b := range pk.Blocks {
+				for _, in := range b.Instrs {
+					c, ok := in.(*ssa.Call)
+					if !ok {
+						continue
+					}
+					if bi, ok := c.Call.Value.(*ssa.Builtin); ok && bi.Name() == "append" && len(c.Call.Args) == 2 {
+						if strings.Contains(kf.TB.Of(c.Call.Args[1]).String(), ctxTerm) || mentionsValue(c.Call.Args[1], ctxVal, 6) {
+							appendBlocks[b] = true
+						}
+					}
+				}
+			}
+			detApp = fmt.Sprintf("%d append site(s) of the looked-up context", len(appendBlocks))
+			okApp = len(appendBlocks) > 0
+			seen := map[*ssa.BasicBlock]bool{}
+			var walk func(b *ssa.BasicBlock)
+			walk = func(b *ssa.BasicBlock) {
+				if seen[b] || appendBlocks[b] || !okApp {
+					return
+				}
+				seen[b] = true
+				if ret, ok := b.Instrs[len(b.Instrs)-1].(*ssa.Return); ok {
+					for _, ri := range kf.Returns() {
+						if ri.Ret == ret && ri.Class != core.RetFail {
+							okApp = false
+							detApp = "the success return at " + r.P.Pos(ret.Pos()) + " is reachable from the lookup without appending the context and without a test on it"
+						}
+					}
+					return
+				}
+				for _, s2 := range b.Succs {
+					guarded := false
+					for _, fc := range kf.EdgeFacts(b, s2) {
+						if fc.Kind != "miss" && fc.Kind != "hit" && strings.Contains(fc.Key(), ctxTerm) {
+							guarded = true
+						}
+					}
+					// the test may be on a flag set by an earlier test on the context (a hand-written search loop)
+					if iff, ok := b.Instrs[len(b.Instrs)-1].(*ssa.If); ok && !guarded && len(b.Succs) == 2 {
+						cond, neg := iff.Cond, false
+						if u, ok := cond.(*ssa.UnOp); ok && u.Op == token.NOT {
+							cond, neg = u.X, true
+						}
+						if phi, ok := cond.(*ssa.Phi); ok {
+							edgeVal := (s2 == b.Succs[0]) != neg // value of the flag on this edge
+							for i, e := range phi.Edges {
+								c, ok := e.(*ssa.Const)
+								if !ok || c.Value == nil || (c.Value.String() == "true") != edgeVal {
+									continue
+								}
+								cur := phi.Block().Preds[i]
+								for n := 0; n < 4 && len(cur.Preds) == 1; n++ {
+									for _, fc := range kf.EdgeFacts(cur.Preds[0], cur) {
+										if strings.Contains(fc.Key(), ctxTerm) {
+											guarded = true
+										}
+									}
+									cur = cur.Preds[0]
+								}
+							}
+						}
+					}
+					if guarded {
+						continue
+					}
+					if s2 == lookupBlock {
+						okApp = false
+						detApp = "the next iteration is reachable from " + r.P.Pos(firstPos(b)) + " without appending the context and without a test on it"
+						return
+					}
+					walk(s2)
+				}
+			}
+			walk(hit)
+		}
+		r.R.Check(okApp, P+".tables.context.appended", "E2/E9 must-pass-through: after a successful context lookup, every way to the next key or to the success return passes the append of that context, or an edge whose test mentions it (already listed)", core.FuncName(pk), r.where(pk),
+			"the context of every key type used must be included; a guard that does not look at the context (a count, a flag) drops the contexts of later key types", "append or test-on-context on every path", detApp)
+	}
 	r.R.Check(okLookup, P+".tables.context.lookup", "E2: a key type without an entry in the context table is an error", core.FuncName(pk), r.where(pk), "a key type without a context must be an error, never silently omitted", "miss → error", "no error on a missing context")
 
 	// ---------------- services
@@ -640,4 +967,46 @@ func (r *Run) checkSectionsListed(P string) {
 		}
 		r.R.Check(okStore, id+".store", "E5/E8: the appended list is stored under \""+sp.section+"\" and the store is bypassed only across len(list) = 0", core.FuncName(f), r.where(f), why, "stored", det)
 	}
+}
+
+// mentionsValue: v is reachable from x through at most depth operand steps (slices of single-element array literals,
+// conversions, stores into the backing array).
+func mentionsValue(x, v ssa.Value, depth int) bool {
+	if x == v {
+		return true
+	}
+	if depth == 0 {
+		return false
+	}
+	switch t := x.(type) {
+	case *ssa.Slice:
+		if al, ok := t.X.(*ssa.Alloc); ok {
+			for _, ref := range *al.Referrers() {
+				if ia, ok := ref.(*ssa.IndexAddr); ok {
+					for _, r2 := range *ia.Referrers() {
+						if st, ok := r2.(*ssa.Store); ok && mentionsValue(st.Val, v, depth-1) {
+							return true
+						}
+					}
+				}
+			}
+		}
+		return mentionsValue(t.X, v, depth-1)
+	case *ssa.MakeInterface:
+		return mentionsValue(t.X, v, depth-1)
+	case *ssa.ChangeType:
+		return mentionsValue(t.X, v, depth-1)
+	case *ssa.Convert:
+		return mentionsValue(t.X, v, depth-1)
+	}
+	return false
+}
+
+func mentionsAny(s string, toks []string) bool {
+	for _, t := range toks {
+		if strings.Contains(s, t) {
+			return true
+		}
+	}
+	return false
 }
